@@ -135,7 +135,7 @@ def check(prop, tier, spec):
             if r is None:
                 skipped += 1
                 continue
-            wedge = r["crash"] == "hang" and "leak" in spec.get("end_oracles", ()) and \
+            wedge = r["crash"] == "hang" and ({"leak", "wedge"} & set(spec.get("end_oracles", ()))) and \
                 "corebgp" in r.get("output", "")
             if r["crash"] == "harness" or (r["crash"] == "hang" and (v is None or v["ok"]) and not wedge):
                 skipped += 1      # not driven to its end; the recorded prefix (if any) was explained
